@@ -579,6 +579,31 @@ SSwitch ==      \* body: sequence of statements with case/default markers; contr
                /\ CTick /\ UNCHANGED <<cpid, genv, env, mem, cout, cstatus, cret, depth>>
 SSwitchEnd == CRunning /\ Top.k = "sw" /\ ck' = Pop /\ CTick /\ UNCHANGED <<cpid, genv, env, mem, cout, cstatus, cret, depth>>
 
+(* default argument promotions: integer promotions, float -> double *)
+DefaultPromote(r) ==
+  IF IsInt(r.t) THEN RV(PromT(r), PromV(r))
+  ELSE IF IsFlt(r.t) THEN ConvTo([k |-> "f", n |-> "double"], r)
+  ELSE r
+
+(* l = va_arg(ap, T): next trailing argument of the innermost active call; its promoted type must be compatible with T
+   (6.4/7.16.1.1p2: same type, or signed/unsigned counterparts with a value representable in both) *)
+SVaArg ==
+  /\ IsStmt("va_arg")
+  /\ LET j == InnerPos({"call"}) IN
+       IF j = 0 THEN Fail("va_arg-outside-function")
+       ELSE LET fr == ck[j] IN
+         IF fr.vai > Len(fr.va) THEN Fail("va_arg-no-more-arguments")
+         ELSE LET a == fr.va[fr.vai]
+                  compatible == \/ a.t = S.t
+                                \/ (IsInt(a.t) /\ IsInt(S.t) /\ Size(a.t.n) = Size(S.t.n) /\ Rank(a.t.n) = Rank(S.t.n) /\ ~SignBit(Canon(a.t.n, a.v)) /\
+                                    (Size(a.t.n) = 8 \/ ~SignBit(SExtBits(a.v, 32)))) IN
+              IF ~compatible THEN Fail("va_arg-type")
+              ELSE LET r == ApplyAsg("=", LVal(S.l), RV(S.t, IF IsInt(S.t) THEN Canon(S.t.n, a.v) ELSE a.v), mem) IN
+                   IF ~r.ok THEN Fail(r.why)
+                   ELSE /\ mem' = r.mem
+                        /\ ck' = [Pop EXCEPT ![j].vai = @ + 1]
+                        /\ CTick /\ UNCHANGED <<cpid, genv, env, cout, cstatus, cret, depth>>
+
 SCall ==        \* [l =] f(args);  arguments are pure expressions
   /\ IsStmt("call")
   /\ LET g == FuncByName(S.f)
@@ -586,6 +611,8 @@ SCall ==        \* [l =] f(args);  arguments are pure expressions
        IF \E j \in 1..Len(S.args) : ~av[j].ok THEN Fail("argument")
        ELSE IF \E j \in 1..Len(g.params) : ~StoreConv(LV(0, <<>>, g.params[j].t, 0), av[j]).ok THEN Fail("argument-conversion")
        ELSE IF depth >= 12 THEN Fail("recursion-depth")
+       ELSE IF Len(S.args) # Len(g.params) /\ ~("variadic" \in DOMAIN g /\ g.variadic /\ Len(S.args) > Len(g.params)) THEN Fail("call-arity")
+       ELSE IF \E j \in (Len(g.params) + 1)..Len(S.args) : ~DefaultPromote(av[j]).ok THEN Fail("argument-promotion")
        ELSE LET base == Cardinality(DOMAIN mem)
                 objs == [j \in 1..Len(g.params) |-> [val |-> StoreConv(LV(0, <<>>, g.params[j].t, 0), av[j]).val, live |-> TRUE]] IN
             /\ mem' = [o \in (DOMAIN mem) \cup ((base + 1)..(base + Len(g.params))) |-> IF o \in DOMAIN mem THEN mem[o] ELSE objs[o - base]]
@@ -593,7 +620,9 @@ SCall ==        \* [l =] f(args);  arguments are pure expressions
                         IF \E j \in 1..Len(g.params) : g.params[j].n = nm
                         THEN LET j == CHOOSE j \in 1..Len(g.params) : g.params[j].n = nm IN [obj |-> base + j, t |-> g.params[j].t]
                         ELSE genv[nm]]
-            /\ ck' = Push(Push(Pop, [k |-> "call", env0 |-> env, hasl |-> "l" \in DOMAIN S, l |-> IF "l" \in DOMAIN S THEN S.l ELSE [k |-> "nop"], rt |-> g.ret]),
+            /\ ck' = Push(Push(Pop, [k |-> "call", env0 |-> env, hasl |-> "l" \in DOMAIN S, l |-> IF "l" \in DOMAIN S THEN S.l ELSE [k |-> "nop"], rt |-> g.ret,
+                                             \* trailing arguments of a variadic call after the default argument promotions (6.5.2.2p7)
+                                             va |-> [j \in 1..(Len(S.args) - Len(g.params)) |-> DefaultPromote(av[Len(g.params) + j])], vai |-> 1]),
                           [k |-> "s", s |-> g.body])
             /\ depth' = depth + 1
             /\ CTick /\ UNCHANGED <<cpid, genv, cout, cstatus, cret>>
@@ -646,7 +675,7 @@ SMain ==        \* after the globals: enter main's body with the global environm
   /\ CTick /\ UNCHANGED <<cpid, env, mem, cout, cstatus, cret, depth>>
 
 CNext == SExpr \/ SAsg \/ SObs \/ SDecl \/ SStatic \/ SVla \/ SBlock \/ SSeq \/ SIf \/ SLoop \/ SLoopTest \/ SNop \/ SCaseLabel \/ SBreak \/ SContinue
-         \/ SSwitch \/ SSwitchEnd \/ SCall \/ SCallEnd \/ SReturn \/ SRetAsg \/ SEnd \/ COutOfFuel \/ SMain
+         \/ SSwitch \/ SSwitchEnd \/ SVaArg \/ SCall \/ SCallEnd \/ SReturn \/ SRetAsg \/ SEnd \/ COutOfFuel \/ SMain
 
 CSpec == CInit /\ [][CNext]_cvars
 CDone == cstatus # "run"
